@@ -28,6 +28,7 @@ def scenarios(tier):
         legacy = dict(v1module="ladim.gridforce.ROMS", v1forcingword="ibm_forcing", numrec=True) if k % 2 else {}
         out.append(dict(name=f"variant-{k}", fn="run", params=dict(extra=False, version=ver, suffix=suffix, wild=wild, extra_forcing=True, **legacy), cost=10))
     out.append(dict(name="runs-equal", fn="runs", params={}, cost=10))
+    out.append(dict(name="warm-start-spellings", fn="run", params=dict(extra=False, warm=True), cost=10))
     return out
 
 
@@ -258,6 +259,14 @@ def run(W, p):
         y1 += ["    super: {ncformat: f4, long_name: number of individuals}"]
     y1 += ["numerics:", f"    dt: {dt}", "    advection: RK4", f"    diffusion: {diff if flags['diffusion'] else 0}"]
 
+    if p.get("warm"):
+        # a warm start named in each spelling (version 1: files.warm_start_file, as doc/source and examples/line/ladim1.yaml say)
+        wfile = str(tmp / "restart_001.nc")
+        W.nc_file(tmp / "restart_001.nc", dict(time=2), dict(time=(("time",), [7200, 10800], dict(units="seconds since 2000-01-04 00:00:00"))))
+        y2 += ["warm_start:", f"    filename: {wfile}"]
+        t2 += ["[warm_start]", f"filename = {tq(wfile)}"]
+        y1[y1.index("files:") + 1:y1.index("files:") + 1] = [f"    warm_start_file: {wfile}"]
+
     ysuf = p.get("suffix", ".yaml")
     (tmp / ("v2" + ysuf)).write_text("\n".join(y2) + "\n")
     (tmp / "v2.toml").write_text("\n".join(t2) + "\n")
@@ -284,6 +293,10 @@ def run(W, p):
         W.prove(g.get("module") == "ladim.ROMS" and g.get("filename") == str(tmp / "ocean_001.nc"), "grid-default", dict(grid=g, flags=flags))
     else:
         W.prove(n_y2["grid"].get("filename") == gridfile, "grid-default", dict(grid=n_y2["grid"]))
+    if p.get("warm"):
+        ws = n_y2.get("warm_start", {})
+        W.prove(ws.get("filename") == wfile and str(n_y2["time"].get("start"))[:19].replace("T", " ") == "2000-01-04 03:00:00", "v1-v2-equal",
+                dict(warm_start=ws, start=n_y2["time"].get("start"), note="control: the version 2 spelling starts at the last record of the restart file"))
     return tuple(sorted(k for k, v in flags.items() if v))
 
 
@@ -310,8 +323,8 @@ def _norm(c):
             return {k: v for k, v in out.items() if v not in (None, {}, [])}
         if isinstance(x, (list, tuple)):
             return [n(v) for v in x]
-        if hasattr(x, "isoformat"):
-            return str(x)[:19].replace("T", " ")
+        if hasattr(x, "isoformat") or (hasattr(x, "astype") and not hasattr(x, "shape")) or type(x).__name__ in ("DT", "datetime64"):
+            return str(x)[:19].replace("T", " ")  # dates, and the datetime64 a warm start puts into time.start
         return x
 
     out = {}
